@@ -115,17 +115,25 @@ def check_step(acc, rule_ids, t, th, w):
         acc.violation(f'C14/duty-not-in-range/{kinds}', 'duty in [-1,1]', case, {'pwm': str(motor.pwm)})
 
 
-def check_sim(acc, which, rule_ids):
+def check_sim(acc, which, rule_ids, late=0):
+    """late: the last `late` rules are added to the control only after a first run of 4 instants (then the run continues)."""
     spec = base_spec(which)
-    case = {'kind': 'sim', 'model': which, 'rules': list(rule_ids)}
+    case = {'kind': 'sim', 'model': which, 'rules': list(rule_ids), 'late': late}
     m = sim.Model(spec)
     log = []
     ctl = PWMControl(powertrain=m.pt)
-    for j, rid in enumerate(rule_ids):
+    early = len(rule_ids) - late
+    for j, rid in enumerate(rule_ids[:early]):
         ctl.add_rule(rh.Proxy(rh.make_rule(rid, m), m, log, j))
     err = None
     try:
-        m.run([0.125, 'sec'], [0.875, 'sec'], control=ctl)
+        if late:
+            m.run([0.125, 'sec'], [0.375, 'sec'], control=ctl)
+            for j, rid in enumerate(rule_ids[early:], early):
+                ctl.add_rule(rh.Proxy(rh.make_rule(rid, m), m, log, j))
+            m.run([0.125, 'sec'], [0.5, 'sec'], control=ctl)
+        else:
+            m.run([0.125, 'sec'], [0.875, 'sec'], control=ctl)
     except Exception as e:
         err = (type(e).__name__, str(e)[:120])
     acc.executions += 1
@@ -140,12 +148,13 @@ def check_sim(acc, which, rule_ids):
     for k in range(ntime):
         props = byk.get(k, {})
         acc.transitions += 1
-        if len(props) != len(rule_ids) and not (err and k == ntime - 1):
+        expected_rules = len(rule_ids) if (not late or k >= 4) else early
+        if len(props) != expected_rules and not (err and k == ntime - 1):
             acc.violation('C14/sim/rules-not-consulted-once', 'every rule consulted exactly once per instant', case,
-                          {'instant': k, 'consulted': len(props), 'rules': len(rule_ids)})
+                          {'instant': k, 'consulted': len(props), 'rules': expected_rules})
             return
         live = [v for v in props.values() if v is not None]
-        acc.state((which, tuple(rule_ids), k, tuple(str(v) for v in props.values())))
+        acc.state((which, tuple(rule_ids), late, k, tuple(str(v) for v in props.values())))
         if any(isinstance(v, tuple) for v in live):
             raised_at = k
             break
@@ -205,6 +214,8 @@ def run_shard(shard, tier):
     else:
         for rule_ids in itertools.combinations(mn, shard['size']):
             check_sim(acc, shard['model'], rule_ids)
+            if shard['size'] >= 1:
+                check_sim(acc, shard['model'], rule_ids, late=1)
         acc.sample({'mode': 'simulation 8 instants', 'model': shard['model'], 'rules': list(rule_ids) if shard['size'] else []})
     return acc
 
@@ -214,7 +225,7 @@ def replay(case):
     if case.get('kind') == 'step':
         check_step(acc, tuple(case['rules']), case['t'], case['theta'], case['w'])
     elif case.get('kind') == 'sim':
-        check_sim(acc, case['model'], tuple(case['rules']))
+        check_sim(acc, case['model'], tuple(case['rules']), late=case.get('late', 0))
     else:
         return run_shard(case['shard'], 'quick').violations
     return acc.violations
